@@ -102,3 +102,43 @@ Qed.
 (** ** np.nansum over exact reals is the plain sum *)
 Lemma nansum_R l : nansum (O := ROps) l = Rsum l.
 Proof. unfold nansum; rops. change (fold_left (fun acc v : R => acc + v) l 0) with (fold_left Rplus l 0). rewrite fold_add_acc; lra. Qed.
+
+(** ** NaN-ignoring reductions (np.nanmean / np.nanmax) *)
+Lemma filter_notnan_R (l : list R) : filter (notnan (O := ROps)) l = l.
+Proof. induction l as [|x l IH]; [reflexivity|]. cbn [filter]. change (notnan (O := ROps) x) with true. cbv iota. rewrite IH. reflexivity. Qed.
+
+Lemma nanmean_R (l : list R) : nanmean_ (O := ROps) l = mean_ (O := ROps) l.
+Proof. unfold nanmean_. rewrite filter_notnan_R. reflexivity. Qed.
+
+Lemma nanmax_R (l : list R) : nanmax_list (O := ROps) l = max_list (O := ROps) l.
+Proof. unfold nanmax_list. rewrite filter_notnan_R. reflexivity. Qed.
+
+(** for EVERY arithmetic instance (binary64 and extended reals included): a failed ray (NaN coordinate) does not
+    take part in the mean / maximum, wherever it sits in the array; without NaN entries the reductions are the plain ones *)
+Theorem nanmean_skip (O : Ops) (a b : list (T O)) (x : T O) :
+  isnan_ x = true -> nanmean_ (a ++ x :: b) = nanmean_ (a ++ b).
+Proof.
+  intros H. unfold nanmean_. rewrite !filter_app. cbn [filter]. unfold notnan at 2. rewrite H. reflexivity.
+Qed.
+
+Theorem nanmax_skip (O : Ops) (a b : list (T O)) (x : T O) :
+  isnan_ x = true -> nanmax_list (a ++ x :: b) = nanmax_list (a ++ b).
+Proof.
+  intros H. unfold nanmax_list. rewrite !filter_app. cbn [filter]. unfold notnan at 2. rewrite H. reflexivity.
+Qed.
+
+Theorem nanmean_clean (O : Ops) (l : list (T O)) :
+  (forall v, In v l -> isnan_ v = false) -> nanmean_ l = mean_ l /\ nanmax_list l = max_list l.
+Proof.
+  intros H. assert (E : filter (notnan (O := O)) l = l).
+  { induction l as [|x l IH]; [reflexivity|]. cbn [filter]. unfold notnan at 1.
+    rewrite (H x (or_introl eq_refl)). cbn. f_equal. apply IH. intros v Hv; apply H; right; exact Hv. }
+  unfold nanmean_, nanmax_list. rewrite E. split; reflexivity.
+Qed.
+
+(** arr[mask] keeps exactly the entries whose mask bit is set *)
+Lemma lmask_in (l : list R) (m : list bool) v : In v (lmask (O := ROps) l m) -> In v l.
+Proof.
+  revert m; induction l as [|x l IH]; intros [|b m] H; cbn in H; try contradiction.
+  destruct b; [destruct H as [<-|H]; [left; reflexivity|right; eapply IH; exact H]|right; eapply IH; exact H].
+Qed.
